@@ -352,6 +352,15 @@ fn gen_c04(r: &mut Rng) -> (J, Prog) {
             _ => {}
         }
     }
+    if r.chance(1, 12) {
+        // two function-valued variables defined in terms of each other: an evaluation error in
+        // every order (the proviso), never an order-dependent verdict
+        let f = |v: &str| Arg::Func(Box::new(Func { name: "count".into(), args: vec![Arg::Query(Query { some: false, parts: vec![Part::Var(v.to_string())] })] }));
+        p.lets.push(Let { name: "cya".into(), val: f("cyb") });
+        p.lets.push(Let { name: "cyb".into(), val: f("cya") });
+        let c = |v: &str, n: i64| Line { alts: vec![Clause::Cmp(Cmp { not: false, q: Query { some: false, parts: vec![Part::Var(v.to_string())] }, op: Op::Eq, opnot: false, rhs: Some(rules::Rhs::Lit(J::Int(n))), msg: None })] };
+        p.rules.push(Rule { name: "probe_cycle".into(), when: vec![], body: Body { lets: vec![], lines: vec![c("cya", 1), c("cyb", 0)] } });
+    }
     if with_recs {
         add_some_variable_probes(r, &mut p);
         // two clauses in one scope that differ only INSIDE their filter, with different
@@ -929,6 +938,13 @@ fn make_var_heavy(r: &mut Rng, p: &mut Prog, d: &J) {
     if r.chance(2, 3) && !ident_keys.is_empty() {
         let mut k = ident_keys[r.usize(ident_keys.len())].clone();
         let shape = r.below(8);
+        if shape == 6 {
+            if let J::Map(kv) = d {
+                if let Some((lk, _)) = kv.iter().find(|(kk, v)| rules::is_ident_pub(kk) && matches!(v, J::List(xs) if xs.iter().any(|x| matches!(x, J::Map(_))))) {
+                    k = lk.clone();
+                }
+            }
+        }
         if shape == 4 || shape == 5 {
             // the filter shape below wants a list with numbers in it, if the document has one
             if let J::Map(kv) = d {
@@ -947,6 +963,10 @@ fn make_var_heavy(r: &mut Rng, p: &mut Prog, d: &J) {
             1 => kq.parts.push(Part::Key("zz_in".into())),
             2 => kq.parts.push(Part::Star),
             3 => kq.parts.push(Part::AllIdx),
+            6 => {
+                // a filter nothing passes: an EMPTY result, neither unresolved nor an error
+                kq.parts.push(Part::Filter { cap: None, lines: vec![Line { alts: vec![Clause::Cmp(Cmp { not: false, q: Query { some: false, parts: vec![Part::Key("zz_no".into())] }, op: Op::Eq, opnot: false, rhs: Some(rules::Rhs::Lit(J::Str("zz never".into()))), msg: None })] }] });
+            }
             4 | 5 => {
                 // a filter whose clause errs on some element types (`empty` on a number)
                 kq.parts.push(Part::Filter { cap: None, lines: vec![Line { alts: vec![Clause::Cmp(Cmp { not: false, q: Query { some: false, parts: vec![Part::This] }, op: Op::Empty, opnot: r.chance(1, 2), rhs: None, msg: None })] }] });
@@ -1006,7 +1026,7 @@ fn make_var_heavy(r: &mut Rng, p: &mut Prog, d: &J) {
         p.prules.push(rules::PRule { name: "twp".into(), params: vec!["tx".into(), "ty".into()], body: Body { lets: vec![], lines: vec![cmp(var("tx"), op3, not3, Some(rules::Rhs::Query(var("ty"))))] } });
         // the argument query may carry a step that leaves it unresolved (never the erring filter:
         // both sides of this pair evaluate the query in place)
-        let kq3 = if shape <= 3 { kq.clone() } else { kq_plain };
+        let kq3 = if shape <= 3 || shape == 6 { kq.clone() } else { kq_plain };
         p.rules.push(rule("tw3_a".into(), vec![], vec![Line { alts: vec![Clause::Call { not: false, name: "twp".into(), args: vec![Arg::Query(kq3.clone()), Arg::Lit(l3.clone())], msg: None }] }]));
         p.rules.push(rule("tw3_b".into(), vec![], vec![cmp(kq3, op3, not3, Some(rules::Rhs::Lit(l3)))]));
     }
@@ -1037,6 +1057,23 @@ fn make_var_heavy(r: &mut Rng, p: &mut Prog, d: &J) {
         p.lets.push(Let { name: "cyb".into(), val: f("cya") });
         let c = |v: &str, n: i64| Line { alts: vec![Clause::Cmp(Cmp { not: false, q: Query { some: false, parts: vec![Part::Var(v.to_string())] }, op: Op::Eq, opnot: false, rhs: Some(rules::Rhs::Lit(J::Int(n))), msg: None })] };
         p.rules.push(Rule { name: "probe_cycle".into(), when: vec![], body: Body { lets: vec![], lines: vec![c("cya", 1), c("cyb", 0)] } });
+    }
+    // a rule-level variable over a list with equal neighbouring values, referenced plainly and
+    // through count(): every reference sees all four values
+    if matches!(d, J::Map(kv) if kv.iter().any(|(k, _)| k == "dups")) && r.chance(1, 2) {
+        let dq = |parts: Vec<Part>| Query { some: false, parts };
+        let lets = vec![
+            Let { name: "dv".into(), val: Arg::Query(dq(vec![Part::Key("dups".into()), Part::AllIdx])) },
+            Let { name: "dc".into(), val: Arg::Func(Box::new(Func { name: "count".into(), args: vec![Arg::Query(dq(vec![Part::Var("dv".into())]))] })) },
+        ];
+        let mut lines = vec![
+            Line { alts: vec![Clause::Cmp(Cmp { not: false, q: dq(vec![Part::Var("dv".into())]), op: Op::Exists, opnot: false, rhs: None, msg: None })] },
+            Line { alts: vec![Clause::Cmp(Cmp { not: false, q: dq(vec![Part::Var("dc".into())]), op: Op::Eq, opnot: false, rhs: Some(rules::Rhs::Lit(J::Int(4))), msg: None })] },
+        ];
+        if r.chance(1, 2) {
+            lines.swap(0, 1);
+        }
+        p.rules.push(Rule { name: "probe_dups".into(), when: vec![], body: Body { lets, lines } });
     }
     // two rules of one name (legal), each with its own rule-level variable of the same
     // name bound to something else; no rule refers to them by name
@@ -1103,6 +1140,8 @@ impl Check for C15 {
             // a list with numbers in it (some clauses err on numbers rather than fail)
             if let J::Map(kv) = &mut d {
                 kv.push(("nums".into(), J::List(vec![J::Int(1), J::Str("x".into()), J::Int(2)])));
+                // equal neighbouring values: a result set is a list, not a set
+                kv.push(("dups".into(), J::List(vec![J::Int(7), J::Int(7), J::Int(8), J::Int(8)])));
             }
         }
         let o = GenOpts { captures: false, functions: true, allow_now: false, default_clauses: false, max_rules: 4, prules: false, ..Default::default() };
